@@ -216,14 +216,15 @@ type vconn struct {
 }
 
 type stubConn struct {
-	mu      sync.Mutex
-	conn    net.Conn
-	laddr   string
-	raddr   string
-	got     []byte
-	eof     bool
-	readErr string
-	reads   int
+	mu       sync.Mutex
+	conn     net.Conn
+	laddr    string
+	raddr    string
+	got      []byte
+	eof      bool
+	readErr  string
+	reads    int
+	panicked string
 }
 
 type c16Session struct {
@@ -234,6 +235,7 @@ type c16Session struct {
 	mu      sync.Mutex
 	rx      []byte
 	servEnd bool
+	q       func()
 }
 
 func newC16Session() *c16Session {
@@ -241,10 +243,11 @@ func newC16Session() *c16Session {
 	if err != nil {
 		panic(err)
 	}
-	s := &c16Session{l: l}
+	s := &c16Session{l: l, q: lab.Quiesce}
 	srv, cli := memconn.Pair(&net.TCPAddr{IP: net.ParseIP("10.0.0.1"), Port: 1339}, &net.TCPAddr{IP: net.ParseIP("10.9.9.9"), Port: 50000})
 	s.cli = cli
 	go func() {
+		fgEnter("session", "")
 		agent.VerifServe(l, srv)
 		s.mu.Lock()
 		s.servEnd = true
@@ -252,6 +255,7 @@ func newC16Session() *c16Session {
 	}()
 	// Accept consumer + stub service: record everything read, answer every read with a tagged reply
 	go func() {
+		fgEnter("accept", "")
 		for {
 			conn, err := l.Accept()
 			if err != nil {
@@ -272,6 +276,17 @@ func newC16Session() *c16Session {
 			s.stubs = append(s.stubs, sc)
 			s.mu.Unlock()
 			go func() {
+				fgEnter("stub", sc.raddr)
+				// like the server's per-connection handler (server/honeytrap.go, handle): a panic
+				// in the service ends this connection only
+				defer func() {
+					if r := recover(); r != nil {
+						sc.mu.Lock()
+						sc.panicked = fmt.Sprint(r)
+						sc.mu.Unlock()
+						conn.Close()
+					}
+				}()
 				buf := make([]byte, 8192)
 				for {
 					n, err := conn.Read(buf)
@@ -299,15 +314,15 @@ func newC16Session() *c16Session {
 // send writes one frame the way the real agent does: three transport writes.
 func (s *c16Session) send(f frame) {
 	s.cli.Write([]byte{f.typ})
-	lab.Quiesce()
+	s.q()
 	l := make([]byte, 2)
 	binary.LittleEndian.PutUint16(l, uint16(len(f.body)))
 	s.cli.Write(l)
-	lab.Quiesce()
+	s.q()
 	if len(f.body) > 0 {
 		s.cli.Write(f.body)
 	}
-	lab.Quiesce()
+	s.q()
 	s.drain()
 }
 
@@ -337,15 +352,48 @@ func (s *c16Session) frames() (out []frame, rest int) {
 	return out, len(b)
 }
 
+func (e c16Env) Violationf(sig, format string, a ...interface{}) {
+	e.viol(sig, fmt.Sprintf(format, a...))
+}
+func (e c16Env) Count(k string, n int64) { e.count(k, n) }
+func (e c16Env) Outcome(parts ...string) { e.outcome(parts...) }
+
 type c16Msg struct {
 	v    int    // virtual connection index
 	kind string // hello data eof
 	n    int    // data index
 }
 
+// c16Env abstracts how the session scenario waits and reports, so that the same scenario and
+// oracle run under the step-granular harness (wait = quiescence of the bubble) and under the
+// fine-grain explorer (wait = drive the controlled scheduler along one schedule).
+type c16Env struct {
+	viol        func(sig, detail string)
+	quiesce     func() // wait until the system has settled
+	stepQuiesce func() // between the transport writes of one frame and between frames
+	teardown    func() // before the harness closes the transport at the end
+	count       func(k string, n int64)
+	outcome     func(parts ...string)
+}
+
+// fgEnter names the calling goroutine for the fine-grain scheduler (no-op in the ordinary build).
+var fgEnter = func(fn, tag string) {}
+
 func c16Check(c *core.Ctx, name string, vcs []*vconn, order []c16Msg, disconnectAfter int) {
+	c16Run(c16Env{
+		viol:        func(sig, detail string) { c.Violation(sig, detail) },
+		quiesce:     lab.Quiesce,
+		stepQuiesce: lab.Quiesce,
+		teardown:    func() {},
+		count:       c.Count,
+		outcome:     c.Outcome,
+	}, name, vcs, order, disconnectAfter)
+}
+
+func c16Run(c c16Env, name string, vcs []*vconn, order []c16Msg, disconnectAfter int) {
 	s := newC16Session()
-	lab.Quiesce()
+	s.q = c.stepQuiesce
+	c.quiesce()
 	s.send(frame{byte(agent.TypeHandshake), c16HandshakeBody("tok")})
 	desc := func() string {
 		var p []string
@@ -383,10 +431,11 @@ func c16Check(c *core.Ctx, name string, vcs []*vconn, order []c16Msg, disconnect
 		}
 		c.Count("transitions", 1)
 	}
+	c.quiesce()
 	if disconnectAfter >= 0 {
 		s.cli.Close()
+		c.quiesce()
 	}
-	lab.Quiesce()
 	s.drain()
 	c.Count("executions", 1)
 
@@ -414,7 +463,14 @@ func c16Check(c *core.Ctx, name string, vcs []*vconn, order []c16Msg, disconnect
 		sc := got[0]
 		sc.mu.Lock()
 		data, eof, rerr := append([]byte(nil), sc.got...), sc.eof, sc.readErr
+		panicked := sc.panicked
 		sc.mu.Unlock()
+		if panicked != "" && !(sentEOF[v] || disconnectAfter >= 0) {
+			c.Violationf("C16:session:handler-panic", "%s: the service's handler for connection %d panicked (%s) although the connection was neither ended by the agent nor was the agent disconnected", desc(), v, panicked)
+		}
+		if panicked != "" {
+			eof = true // a handler that panicked was ended by the server's recover
+		}
 		if !bytes.Equal(data, sentData[v]) {
 			first := 0
 			for first < len(data) && first < len(sentData[v]) && data[first] == sentData[v][first] {
@@ -488,10 +544,12 @@ func c16Check(c *core.Ctx, name string, vcs []*vconn, order []c16Msg, disconnect
 		if !ended {
 			c.Violationf("C16:session:loop-not-ended", "%s: the session loop is still running after the agent disconnected", desc())
 		}
-	} else {
-		s.cli.Close()
-		lab.Quiesce()
 	}
+	c.teardown()
+	if disconnectAfter < 0 {
+		s.cli.Close()
+	}
+	lab.Quiesce()
 	c.Outcome(fmt.Sprint(len(stubs)), fmt.Sprint(len(frs)))
 }
 
